@@ -128,6 +128,18 @@ public:
     virtual void
     ProcessXObjectTypeCallback(XObjectTypeCallback&     theCallbackObject) const;
 
+protected:
+
+    /**
+     * Forget the cached number value.  A derived class whose value
+     * can change must call this when it does.
+     */
+    void
+    resetCachedNumberValue()
+    {
+        m_cachedNumberValue = 0.0;
+    }
+
 private:
 
     friend class XObjectResultTreeFragProxyText;
